@@ -223,6 +223,9 @@ def run(P, rep, tier):
                         'R13.11: values of the input enter through ' + ', '.join('%s.%s (%s)' % (k[0], k[1], v) for k, v in sorted(INPUT_VALUE_FIELDS.items())) + '; a narrowing conversion does not turn a non-zero value into 0; '
                         'divisors that are not values of the input (HashMap.capacity, Type.size, alignments) are invariants of the compiler\'s own data and are not judged',
                         'R13.12: a test of a local that was initialised with an evaluator call and never assigned again is a test of that call; lazy operands are ' + '; '.join('%s: %s' % (k, ', '.join(sorted(v[1]))) for k, v in sorted(LAZY_OPERANDS.items())),
+                        'a boolean field that every store sets to true only where a sub-object of the owner has validated kinds (derived, listed under derived_tables) implies those kinds where the field '
+                        'is tested; the sub-object is not replaced afterwards; records also built by initializer lists are excluded',
+                        'two pointer variables of which one is a plain copy of the other, neither assigned since, are equal: a store through one is a store through the other',
                         'facts established in other functions, each confirmed by reading: ' + '; '.join('%s:%s %s (%s)' % (k[0], k[1], k[2], v) for k, v in sorted(ASSUMED.items()))]
     W = _world(P)
     engs = L.solve(W)
